@@ -705,6 +705,16 @@ func execC19Session(c *child.Ctx, k proxyCase, cj []byte) {
 				up.Close()
 				return
 			}
+			// independently of any framing: what the report lists as one message is a
+			// contiguous piece of what the client sent
+			for _, l := range listed {
+				if !bytes.Contains(allClient, l) {
+					c.Violate("report-lists-unrelayed", fmt.Sprintf("the report lists a message of %d bytes that occurs nowhere in the relayed client stream: %s", len(l), clip(hexs(l))), cj)
+					conn.Close()
+					up.Close()
+					return
+				}
+			}
 			c.Count("reports_checked", 1)
 			c.Count("messages_listed_in_reports", int64(len(listed)))
 		}
@@ -852,6 +862,18 @@ func ntripRequest(r *ref.SplitMix64) []byte {
 		return []byte("POST /BASE7 HTTP/1.1\r\nHost: caster.example:2101\r\nAuthorization: Basic " + cred + "\r\nNtrip-Version: Ntrip/2.0\r\nTransfer-Encoding: chunked\r\n\r\n")
 	}
 	return []byte("SOURCE " + cred + " /BASE7\r\nSource-Agent: NTRIP test\r\nAuthorization: Basic " + cred + "\r\n\r\n")
+}
+
+// casterAnswer is the first thing a caster sends: acceptance or a refusal.
+func casterAnswer(r *ref.SplitMix64) []byte {
+	return []byte([]string{
+		"ICY 200 OK\r\n\r\n",
+		"HTTP/1.1 200 OK\r\nNtrip-Version: Ntrip/2.0\r\nContent-Type: gnss/data\r\nTransfer-Encoding: chunked\r\n\r\n",
+		"HTTP/1.1 401 Unauthorized\r\nNtrip-Version: Ntrip/2.0\r\nWWW-Authenticate: Basic realm=\"BASE7\"\r\nConnection: close\r\n\r\n",
+		"HTTP/1.1 404 Not Found\r\nServer: NTRIP Caster 2.0\r\nConnection: close\r\n\r\n<html><body>no such <b>mountpoint</b></body></html>\r\n",
+		"SOURCETABLE 200 OK\r\nServer: NTRIP Caster\r\nContent-Type: text/plain\r\n\r\nSTR;BASE7;Town;RTCM 3.2;1005(10),1077(1);2;GPS+GLO;SNIP;GBR;51.0;-1.0;1;0;sNTRIP;none;B;N;0;\r\nENDSOURCETABLE\r\n",
+		"ERROR - Bad Password\r\n",
+	}[r.Intn(6)])
 }
 
 func proxyStream(r *ref.SplitMix64, size int) []byte {
@@ -1353,6 +1375,11 @@ func monC19(c *child.Ctx, replay json.RawMessage) {
 		for j := 0; j < nconn; j++ {
 			cs := proxyStream(r, r.Range(size/4, size))
 			ss := proxyStream(r, r.Range(10, size/2))
+			if i%4 == 1 {
+				// the way a session begins: the client's request, the caster's answer
+				cs = append(ntripRequest(r), cs...)
+				ss = append(casterAnswer(r), ss...)
+			}
 			if i%5 == 2 && j == 0 {
 				// text-only traffic: complete NMEA sentences, some with markup in the text
 				cs = nil
